@@ -721,6 +721,82 @@ def shard_addr(item, deadline):
 
 # ----------------------------------------------------------------------------- entry points
 
+# ----------------------------------------------------------------------------- part hist: decoded messages are independent
+
+def hist_param_sets():
+    a1, a2 = ("1.2.3.4", 47808), ("192.168.0.254", 1)
+    return {
+        R.RESULT: [{"code": 0}, {"code": 0x30}, {"code": 0x60}],
+        R.WRITE_BDT: [{"bdt": []}, {"bdt": [a1 + (0xFFFFFF00,)]}, {"bdt": [a2 + (0xFFFFFFFF,), a1 + (0,)]}],
+        R.READ_BDT_ACK: [{"bdt": []}, {"bdt": [a2 + (0xFFFFFFFF,)]}, {"bdt": [a1 + (0xFFFF0000,), a2 + (0xFFFFFF00,)]}],
+        R.FORWARDED_NPDU: [{"addr": a1, "npdu": b""}, {"addr": a2, "npdu": b"\x01\x00\x10\x08"}, {"addr": a1, "npdu": b"\x01\x20\xff\xff\x00\xff\x10\x00"}],
+        R.REGISTER_FD: [{"ttl": 0}, {"ttl": 30}, {"ttl": 65535}],
+        R.READ_FDT_ACK: [{"fdt": []}, {"fdt": [a1 + (30, 5)]}, {"fdt": [a2 + (60, 65), a1 + (1, 0)]}],
+        R.DELETE_FDT_ENTRY: [{"addr": a1}, {"addr": a2}, {"addr": ("255.255.255.255", 65535)}],
+        R.DISTRIBUTE_BROADCAST: [{"npdu": b""}, {"npdu": b"\x01\x00\x10\x08"}, {"npdu": b"\x01\x04"}],
+        R.ORIGINAL_UNICAST: [{"npdu": b""}, {"npdu": b"\x01\x00\x10\x08"}, {"npdu": b"\x01\x04"}],
+        R.ORIGINAL_BROADCAST: [{"npdu": b""}, {"npdu": b"\x01\x00\x10\x08"}, {"npdu": b"\x01\x04"}],
+    }
+
+
+def _decode_like_the_codec(octets):
+    """what AnnexJCodec.confirmation does: interpret the header, then a default-constructed message of the registered class"""
+    x = B.BVLPDU()
+    x.decode(PDU(bytes(octets)))
+    m = B.bvl_pdu_types[x.bvlciFunction]()
+    m.decode(x)
+    return m
+
+
+def hist_case(function, sets, order):
+    """Decode the frames of `order` one after the other, keep every decoded message, then look at all of them again and
+    at a message built without arguments.  -> None | (signature, detail)"""
+    kept = []
+    for k in order:
+        try:
+            m = _decode_like_the_codec(R.encode(function, sets[k]))
+        except Exception as err:
+            return ("history:%s:decode-raises-%s" % (NAMES[function], type(err).__name__), {"order": list(order), "error": repr(err)})
+        kept.append((k, m))
+    for pos, (k, m) in enumerate(kept):
+        d = diff_params(sets[k], params_of(function, m))
+        if d is not None:
+            return ("history:%s:earlier-or-later-decode-changed-a-kept-message:%s" % (NAMES[function], d[0]),
+                    {"decoded_in_order": [show_p(sets[j]) for j in order], "message_number": pos, "holds_now": show_p(params_of(function, m))})
+    # a message built without arguments after all that still is the empty one
+    if function in (R.WRITE_BDT, R.READ_BDT_ACK, R.READ_FDT_ACK):
+        try:
+            fresh = B.bvl_pdu_types[function]()
+            x = B.BVLPDU()
+            fresh.encode(x)
+            out = PDU()
+            x.encode(out)
+            octets = bytes(out.pduData)
+        except Exception as err:
+            return ("history:%s:default-message-does-not-encode:%s" % (NAMES[function], type(err).__name__), {"order": list(order)})
+        want = R.encode(function, {"bdt": []} if function != R.READ_FDT_ACK else {"fdt": []})
+        if octets != want:
+            return ("history:%s:default-message-carries-entries-of-an-earlier-decode" % NAMES[function],
+                    {"decoded_before": [show_p(sets[j]) for j in order], "emitted": short(octets), "want": short(want)})
+    return None
+
+
+def shard_hist(item, deadline):
+    import itertools as it
+    acc = Acc()
+    sets_by_fn = hist_param_sets()
+    for function in item:
+        sets = sets_by_fn[function]
+        for n in (1, 2, 3):
+            for order in it.product(range(len(sets)), repeat=n):
+                bad = hist_case(function, sets, order)
+                acc.case(("hist", function, order))
+                acc.outcome("hist:%s" % ("independent" if bad is None else "aliased"))
+                if bad is not None:
+                    acc.fail(bad[0], bad[1], {"kind": "hist", "function": function, "order": list(order)})
+    return acc
+
+
 def timed(acc, name, t0):
     acc.info["wall_s " + name] = round(time.time() - t0, 1)
 
@@ -790,6 +866,11 @@ def run(tier, seed, deadline):
     run_shards(shard_short, items, deadline, into=acc)
     timed(acc, "short", t0)
 
+    # part hist
+    t0 = time.time()
+    run_shards(shard_hist, [[f] for f in sorted(hist_param_sets())], deadline, into=acc)
+    timed(acc, "hist", t0)
+
     samples(acc, cases, tc, seed)
     return acc
 
@@ -810,6 +891,10 @@ def samples(acc, cases, tc, seed):
 
 
 def replay(case):
+    if case.get("kind") == "hist":
+        f = hist_case(int(case["function"]), hist_param_sets()[int(case["function"])], tuple(case["order"]))
+        return f is None, "decode %s frames in order %r, then look at all kept messages and a default one -> %r" % (
+            NAMES[int(case["function"])], case["order"], f or "independent")
     k = case["k"]
     if k == "in":
         label, f = judge(case["octets"])
